@@ -3,11 +3,12 @@ import json
 from gen import common, btcp, sysattr
 from gen.sysattr import hexn
 
-LEAN_MODULE = "XcmModel.Props.C11"
+LEAN_MODULE = ["XcmModel.Props.C11", "XcmModel.Props.Funcs"]
 THEOREMS = [
     "XcmModel.C11.optsEqual_iff", "XcmModel.C11.C11_readback_field", "XcmModel.C11.C11_readback_keepalive",
     "XcmModel.C11.applyOps_inForce", "XcmModel.C11.finishConnect_inForce",
     "XcmModel.C11.C11_tcp_opts_in_force", "XcmModel.C11.C11_tcp_opts_in_force_accepted",
+    "XcmModel.FuncsTie.tcp_opts_equal_tie",
 ]
 
 FIELDS = ["keepalive", "time", "interval", "count", "user_timeout"]
